@@ -193,6 +193,18 @@ PROPS["C11"] = dict(
     assumptions=["every caller performs exactly one receive on its channel (regattaserver/kv.go does)", "waiter ids are unique"],
 )
 
+PROPS["C04"] = dict(
+    title="Crash recovery exposes exactly a prefix of the log, atomically and only once",
+    design_ref="DESIGN.md section 7 (C04)",
+    run_files=["Run/C04Run.v", "Mutants/DirProtoMutants.v"],
+    engines=[dict(cmd=["c04"], corr="Model.DirProto.{expand,exec1,crash,reopen} <-> fsm.FSM Open/Update/Sync/Close/RecoverFromSnapshot + pebble/dir.go over Pebble's strict in-memory file system", timeout=1500)],
+    level_text="Theorem for every history of operations (open, update, sync, close, snapshot install), every crash point between two primitive file-system / Pebble steps, every survival oracle and any number of crashes: a reopen succeeds and shows b whole batches with acknowledged <= b <= applied; the invariant (the durable 'current' names a durably present DB directory whose durable content covers everything acknowledged) is proved after every single primitive step; the reopened state is again good (repeated crashes) and replay goes through the ordinary update path. The original first-open order is refuted in the model (Mutants/DirProtoMutants.v). The real fsm.FSM runs over Pebble's strict MemFS: every sync operation of fixed and random scenarios is a crash point (plus a second crash during recovery); the Go oracle checks index/content/last-sync/replay on the real state, Coq checks the recorded protocol events against the model's steps and that the model admits every outcome.",
+    level_note="PARTIAL where Pebble is concerned: the model assumes Pebble's own guarantees (atomic batches, flush/ingest durable when they return, a durably present DB directory reopens with its durable content); these are exercised on the real Pebble at every sync boundary but not proved. The ancestors of the table directory (<base>/<host>) are outside the model (exercised: CreateNodeDataDir). The content of b batches being 'exactly entries 1..i' is C01/C02's theorem about the batch step, not re-proved here. Fault model as in the property (fsync granularity; no torn writes inside a synced file).",
+    technique="Coq proof (inductive invariant over primitive steps of the directory protocol with crash, at every prefix of every operation) + exhaustive crash-point enumeration of the real state machine on a strict in-memory file system",
+    trusted=["Model/DirProto.v hand-written model of the current/current.updating protocol and of the operations' step sequences", "Pebble's crash guarantees as stated in Model/DirProto.v"],
+    assumptions=["fresh DB directory names never collide", "snapshots older than the content are never installed (Raft library)", "Pebble: atomic batches, durable flush/ingest, reopen of a durable directory"],
+)
+
 PROPS["C15"] = dict(
     title="At most one follower node holds a table's replication lease at a time",
     design_ref="DESIGN.md section 7 (C15)",
